@@ -1140,8 +1140,8 @@ Proof.
     all: try (intros ? ? ? ? []; fail).
     all: try (intros; apply OutOk_nil; fail).
     + cbn [gstep]. unfold valid_id. destruct (N.ltb_spec i (n_nodes cfg)); [reflexivity|lia].
-    + unfold finalize. destruct (N.leb h (commit (nd_of s i))); [apply (K1_same cfg quorum_ok); reflexivity|apply (K1_refl cfg quorum_ok)].
-    + unfold finalize. destruct (N.leb h (commit (nd_of s i))); cbn [rl log term]; apply (c_cand _ _ _ HC0 i Hi).
+    + unfold finalize. match goal with |- context [if ?c then _ else _] => destruct c end; [apply (K1_same cfg quorum_ok); reflexivity|apply (K1_refl cfg quorum_ok)].
+    + unfold finalize. match goal with |- context [if ?c then _ else _] => destruct c end; cbn [rl log term]; apply (c_cand _ _ _ HC0 i Hi).
   - (* GCompact *)
     unfold valid_id. destruct (N.ltb_spec i (n_nodes cfg)) as [Hi|]; cbn [fst]; [|exact Stay].
     exists gl. split; [|apply gl_ext_refl]. eapply (fi_frame s gl (GCompact i)); eauto.
